@@ -366,6 +366,33 @@ static int drive(int start, int nexec)
 		{
 			/* unopenable files */
 			long live0 = vh_live;
+			{
+				/* a readable file opened while descriptor 0 is free (a process started without stdin): the lowest
+				 * descriptor, 0, is a perfectly good one */
+				char tn[] = "/tmp/vh_c20_fd0_XXXXXX";
+				int tfd = mkstemp(tn);
+				if (tfd >= 0 && write(tfd, "[1,2,3]", 7) == 7)
+				{
+					close(tfd);
+					int keep = dup(0);
+					close(0);
+					json_object *z = json_object_from_file(tn);
+					int fd0_free_after = fcntl(0, F_GETFD) == -1;
+					if (keep >= 0)
+					{
+						dup2(keep, 0);
+						close(keep);
+					}
+					ev_begin("fd0");
+					ev_bool("got_value", z != NULL);
+					ev_int("len", z ? (int)json_object_array_length(z) : -1);
+					ev_bool("closed_again", fd0_free_after);
+					ev_end();
+					if (z)
+						json_object_put(z);
+				}
+				unlink(tn);
+			}
 			json_object *o = json_object_from_file("/nonexistent-dir/x.json");
 			ev_begin("open");
 			ev_bool("got_value", o != NULL);
